@@ -163,4 +163,21 @@ pub fn generate(s: &mut Session, tier: &str, rng: &mut Rng) {
         history(s, "walk", &ids, limit);
     }
     codec_histories(s, rng, tier == "thorough");
+    // the real server: a refused duplicate does not end the session or disturb the packets that follow
+    for cfg in crate::e2e_gen::protocol_ciphers(rng) {
+        if cfg.protocol != "shadowsocks" || !cfg.cipher.starts_with("2022") {
+            continue;
+        }
+        if tier != "thorough" && !(cfg.cipher.ends_with("aes-128-gcm") || cfg.cipher.ends_with("chacha20-poly1305")) {
+            continue;
+        }
+        s.begin_case(&format!("e2e-replay:{}:{}", cfg.cipher, cfg.users != "-"));
+        let Some(w) = cfg.start(s, false, 2) else { continue };
+        let r = s.run(&format!("e2e.udpreplay {}", w));
+        if r != "ok" {
+            s.oracle_fail("e2e-replay", &format!("{}: a replayed datagram disturbed its session: `{}`", cfg.label(), r));
+        }
+        s.run(&format!("e2e.stop {}", w));
+        s.mark_nontrivial();
+    }
 }
